@@ -1,6 +1,7 @@
 """C14 - reverse complement, stranded extraction and translation are biologically exact.
 
-Shape A (product-space enumeration).  Seven finite spaces, each enumerated completely:
+Shape A (product-space enumeration).  Seven finite spaces, each enumerated completely (units() lists the
+sub-spaces, shards() packs them into 32 / 48 shards of equal estimated cost):
 
   flat      every string over {A,C,G,T,N,a,c,g,t,n} up to a length bound, as a Python str and as a
             1-D EncodedArray in the ASCII, ACGT (N-free strings) and ACGTN encodings
@@ -56,15 +57,18 @@ ASSUMPTIONS = [
 EXPLANATION = ('every input of the stated finite spaces is executed on the real functions and compared with a '
                'hand-written complement table / genetic code; representation variants (flat, ragged, ragged views, '
                'matrix, table column) are part of the space because reversal is done by slicing the (ragged) array')
-MANIFEST_TEXT = ('Exhaustive enumeration: every DNA string over {A,C,G,T,N,a,c,g,t,n} of length <= 4 (quick) / <= 6 '
-                 '(thorough) in ASCII, ACGT and ACGTN encodings; every list of 1..3 strings with <= 3 / <= 4 letters in '
-                 'total in 6 container forms; every ordered list of <= 2 / <= 3 stranded intervals (56 intervals incl. '
-                 'empty ones) on 6-base references through get_strand_specific_sequences and GenomicSequence[...] '
-                 '(dict and indexed-FASTA backends); all 64 codons in all case spellings and every concatenation of '
-                 '2 / 3 codons, single rows and ragged batches.  Clauses: the call returns, row lengths preserved, value '
-                 'equals reverse complement (A<->T, C<->G, N fixed), applying twice gives the input, \'+\' gives the '
-                 'forward subsequence and \'-\' its reverse complement, each codon gives its standard amino acid with '
-                 'stops as \'*\'.')
+MANIFEST_TEXT = ('Exhaustive enumeration against a table-driven model: every DNA string over {A,C,G,T,N,a,c,g,t,n} of '
+                 'length <= 4 (quick; plus a seed-rotated tenth of length 5) / <= 6 (thorough) as str and as 1-D array in the '
+                 'ASCII, ACGT (N-free) and ACGTN encodings; every list of 1..3 strings with <= 3 / <= 4 letters in total '
+                 '(empty rows included; below the top total also as ragged views, 2-D matrix and SequenceEntry column); longer '
+                 'row-length profiles (0..3 / 0..4 rows, lengths up to 8 / 13) with three letter fills; every short reference '
+                 'x every single stranded interval; every ordered list of <= 2 / <= 3 stranded intervals (56 intervals incl. '
+                 'empty ones, + and -) on 6-base references through get_strand_specific_sequences and GenomicSequence[...] '
+                 '(dict and indexed-FASTA backends); all 64 codons in all 8 case spellings and every concatenation of '
+                 '2 / 3 codons as single rows and split over ragged batches.  Clauses: the call returns; row lengths are '
+                 'preserved; value equals the reverse complement (A<->T, C<->G, N fixed); applying it twice gives the input; '
+                 '\'+\' gives the forward subsequence and \'-\' its reverse complement; each codon gives its standard amino acid '
+                 'with stops as \'*\'.')
 MANIFEST_NOTE = ('Trusted: NumPy, CPython, the hand-written tables in models/seqs.py (cross-checked against Biopython '
                  'on every case), input constructors (read back before judging).  Case-insensitive comparison; '
                  'strands limited to + and -; bounds as stated.')
